@@ -140,4 +140,28 @@ def failureOk (e : RawErr) (bound : Bool) (negotiated : Bytes)
     (status : Nat) (ct : Option Bytes) (body : Bytes) (dec : Decoded) : Bool :=
   (failureWhy e bound negotiated status ct body dec).isNone
 
+/-! ### reading the regenerated facts -/
+
+/-- net/http status constants used by the gateway table (name ↦ number); "499" is a literal there. -/
+def httpStatusByName : List (String × Nat) :=
+  [("StatusOK", 200), ("499", 499), ("StatusInternalServerError", 500), ("StatusBadRequest", 400),
+   ("StatusGatewayTimeout", 504), ("StatusNotFound", 404), ("StatusConflict", 409), ("StatusForbidden", 403),
+   ("StatusUnauthorized", 401), ("StatusTooManyRequests", 429), ("StatusNotImplemented", 501),
+   ("StatusServiceUnavailable", 503)]
+
+/-- HTTP status the extracted source table gives for code number `c`. -/
+def generatedStatus (tbl : List (String × String)) (c : Nat) : Option Nat :=
+  match codeNames[c]? with
+  | none => none
+  | some name =>
+    match tbl.find? (fun p => p.1 == name) with
+    | none => none
+    | some p => (httpStatusByName.find? (fun q => q.1 == p.2)).map (·.2)
+
+/-- `fmt.Sprintf` restricted to `%s` verbs with byte-string arguments. -/
+def sprintfS : List Char → List Bytes → Bytes
+  | [], _ => []
+  | '%' :: 's' :: rest, a :: args => a ++ sprintfS rest args
+  | c :: rest, args => UInt8.ofNat c.toNat :: sprintfS rest args
+
 end GB.C10
